@@ -280,7 +280,7 @@ func genC18(t *rapid.T) c18Case {
 		nrec := rapid.IntRange(1, 6).Draw(t, "nrec")
 		for i := 0; i < nrec; i++ {
 			var lines []vLine
-			for k := rapid.IntRange(0, 3).Draw(t, "nent"); k > 0; k-- {
+			for k := rapid.IntRange(0, 6).Draw(t, "nent"); k > 0; k-- {
 				lines = append(lines, vLine{Kind: vkEntry, Name: pool[rapid.IntRange(0, 2).Draw(t, "ei")], Num: vGenNumDecimal(t, "num"), L: vGenEntryLayout(t, lo, "el")})
 			}
 			d.Recs = append(d.Recs, vRec{Head: vGenName(t, true, "head"), HL: vGenHeadLayout(t, lo, "hl"), Lines: lines})
